@@ -84,7 +84,7 @@ def run(tier, seed, replay=None):
             return rep.finish()
         worlds = []
         t0 = 1300000000 + rng.randrange(10 ** 7)
-        shapes = ["empty", "one", "kinds", "names", 41, 150 if not full else 1500]
+        shapes = ["empty", "one", "kinds", "names", 41, 150 if not full else 500]
         for shape in shapes:
             nodes = shape_world(rng, shape, t0)
             n = len([x for x in nodes if len(x["p"]) == 2 and x["p"][0] == "dir"])
